@@ -62,7 +62,7 @@ PROPS["C01"] = {
 PROPS["C03"] = {
     "features": None,
     "technique": "Lean 4 proof: encoder = Spec.ser of the reference wire tree for all listings; independent RFC 8010 reader (Spec.unser) run on the real bytes",
-    "level_text": "Machine-checked theorems: for every message of the domain of C01 and every listing (iteration order) `encodeMsg h L = ser (toWireMsg h L)` (bytes identical to the reference encoding written from RFC 8010), `wfWire (toWireMsg h L)` (registered tags, lengths, empty names on additional values, bracketed collections, member names before their values, one end tag), `interp (toWireMsg h L) = (h, gs)` (the RFC reading of the bytes is the message), `tagOf v = registryTag v`; `any_message` (all three for every list of groups, with `opFirst`). Tie to the code: the real encoder's bytes for seeded random messages built on fresh hash maps are compared with the model encoder's, and are read by an independent grammar-directed decoder (Spec.unser: no state machine, no stack) whose result must be well-formed, re-serialise to the same bytes, have unique names and interpret to the message.",
+    "level_text": "Machine-checked theorems: for every message of the domain of C01 and every listing (iteration order) `encodeMsg h L = ser (toWireMsg h L)` (bytes identical to the reference encoding written from RFC 8010), `wfWire (toWireMsg h L)` (registered tags, lengths, empty names on additional values, bracketed collections, member names before their values, one end tag), `interp (toWireMsg h L) = (h, gs)` (the RFC reading of the bytes is the message), `tagOf v = registryTag v`; `any_message` (all three for every list of groups, with `opFirst`). `header_is_8`, `header_change` (the bytes depend on the header only through their first eight octets) and `no_groups` (header, empty operation group, end tag) are what the in-place-mutation history oracle expects. Tie to the code: the real encoder's bytes for seeded random messages built on fresh hash maps are compared with the model encoder's, and are read by an independent grammar-directed decoder (Spec.unser: no state machine, no stack) whose result must be well-formed, re-serialise to the same bytes, have unique names and interpret to the message; every encoded object is then encoded again unchanged, with its header changed through header_mut(), restored, with all groups removed through attributes_mut(), and through into_read(), against expectations taken from RFC 8010 alone.",
     "level_note": "Trusts the Lean kernel, the translator, the correspondence check, Spec/Wire.lean as the transcription of RFC 8010 section 3, and the modelled-library assumptions (HashMap iteration = arbitrary listing).",
     "design_ref": "DESIGN.md section 9, C03",
     "trusted_base": CODEC_TB + ["Spec/Wire.lean, Spec/ToWire.lean, Spec/Unser.lean: the RFC 8010 grammar, reference encoding and independent reader, written from the RFC"],
